@@ -29,6 +29,7 @@ class _HomoskedasticNoiseBase(Noise):
         if noise_constraint is None:
             noise_constraint = GreaterThan(1e-4)
 
+        self.batch_shape = torch.Size(batch_shape)
         self.register_parameter(name="raw_noise", parameter=Parameter(torch.zeros(*batch_shape, num_tasks)))
         if noise_prior is not None:
             self.register_prior("noise_prior", noise_prior, self._noise_param, self._noise_closure)
